@@ -1927,6 +1927,18 @@ def f_Start : Stmt :=
   .invoke Fn.ChainIndexerSyncedHeight ;;
   .scope (.invoke Fn.getReadyWallets) ;;
   ifR (nz "err") .skip ;;
+  -- D42: put the wallet back on the node's chain when its synced block has left it
+  .call "synced height > 0" ["st.rs"] [] ;;
+  .ite (nz "st.rs") (
+    .call "FetchBlockShaByHeight" ["sha", "err"] (onOk "err" [.nz "sha"]) ;;
+    ifR (nz "err") .skip ;;
+    Dt "*sha" "sha" ;;
+    .call "synced block left the chain" ["st.rs2"] [] ;;
+    .ite (nz "st.rs2") (
+      .call "FetchBlockByHeight" ["blk", "err"] (onOk "err" [.nz "blk"]) ;;
+      ifR (nz "err") .skip ;;
+      .invoke Fn.processConnectedBlock ;;
+      ifR (nz "err") .skip) .skip) .skip ;;
   .call "fast-forward heights" ["st.ff"] [] ;;
   .loop "st.i" "st.ff" [] (
     .call "FetchBlockShaByHeight" ["sha", "err"] (onOk "err" [.nz "sha"]) ;;
